@@ -7,7 +7,8 @@ D: trees (exhaustive small ones over the converter's vocabulary + random deeper/
    serialised as XML, parsed with ET.fromstring, converted by the implementation, and the PARSED tree
    is handed to the Coq model (variant `fixed` = the code with fixes/C19-*.patch applied); exact output
    string / exception class must agree.  The property oracle (no exception, balance, ordered texts,
-   own operator, function-name form, no rendered None, determinism, input tree not mutated) runs on the
+   own operator, function-name form, documented form of EVERY element from its separately converted operands
+   (compositional twin of the C19_form_* theorems, calm schema-shaped trees), no rendered None, determinism, input tree not mutated) runs on the
    implementation's output itself; the HISTORY oracle converts sequences of trees in freshly forked processes
    (tools/props/c19_iso.py) and compares every result with the conversion of the same tree alone.
    If the literal extraction fails, the G obligation stays broken and the search continues with the committed
@@ -268,6 +269,19 @@ def exhaustive(ctx, tabs=None):
                 rows = [N("m:mr", *[N("m:e", *cell) for _ in range(c)]) for _ in range(r)]
                 for pv in (None, N("m:mPr", N("m:mcs"))):
                     cases.append(("exh1:m", wrap([N("m:m", *([pv] if pv else []), *rows)])))
+    # sparse matrices and delimiters: every operand empty (<m:e/>), holding only an empty run / a property element,
+    # or filled, in every position
+    fill = [[], [N("m:r", N("m:rPr"), N("m:t"))], [mrun("a")], [mrun("b")]]
+    for cs in itertools.product(range(4), repeat=4):
+        if cs.count(2) + cs.count(3) in (1, 2, 3) or cs == (2, 3, 3, 2):
+            cases.append(("sparse:m", wrap([N("m:m", N("m:mPr"), N("m:mr", N("m:e", *fill[cs[0]]), N("m:e", *fill[cs[1]])),
+                                            N("m:mr", N("m:e", *fill[cs[2]]), N("m:e", *fill[cs[3]])))])))
+    for k in (2, 3):
+        for cs in itertools.product(range(3), repeat=k):
+            cases.append(("sparse:d", wrap([N("m:d", N("m:dPr", N("m:begChr", val="|"), N("m:endChr", val="|")),
+                                            *[N("m:e", *fill[c]) for c in cs])])))
+    for cs in itertools.product(range(3), repeat=3):
+        cases.append(("sparse:m", wrap([N("m:m", N("m:mr", *[N("m:e", *fill[c]) for c in cs]))])))
     # depth 2: a representative element in each slot of each kind
     reps = representative()
     for kind, (pr, slots, chrs) in KINDS.items():
@@ -564,6 +578,98 @@ def expected_operator(e, tabs):
     return tabs["accent_map"].get(val if own is not None else "^", "\\hat") + "{"
 
 
+def own_chr(e, ns, pr, name):
+    for c in e:
+        if c.tag == ns + pr:
+            for g in c:
+                if g.tag == ns + name:
+                    return g
+    return None
+
+
+def calm(e, lost):
+    """no bracket character in any text/attribute value and no empty delimiter character: then no radical can take the
+    lone-bracket form, the pending state stays empty and every element renders independently of its context"""
+    for x in e.iter():
+        if any(c in lost for c in (x.text or "")) or any(c in lost for v in x.attrib.values() for c in v):
+            return False
+        if local(x.tag) in ("begChr", "endChr") and "".join(x.attrib.values()).strip() == "":
+            return False
+    return True
+
+
+def form_broken(mod, tabs, lost, root):
+    """Python twin of the C19_form_* theorems, evaluated on the IMPLEMENTATION: for a schema-shaped calm tree the
+    rendering of every element must be its documented template applied to the renderings of its operands (each
+    operand converted on its own), every operand in place — empty ones too.  Returns a description or None."""
+    ns = tabs["m_ns"]
+    if not schema_ok(root, tabs, root=True) or not calm(root, lost):
+        return None
+
+    def conv(el):          # children of el, as omml_to_latex sees a root
+        return mod.omml_to_latex(el)
+
+    def alone(el):         # el itself, as the only child of a root
+        r = ET.Element(ns + "oMath")
+        r.append(el)
+        return mod.omml_to_latex(r)
+
+    def slot(el, name):
+        c = el.find(ns + name)
+        return "" if c is None else alone(c)
+    g = lambda ch: tabs["greek"].get(ch, ch)
+    nodes = [root] + [x for x in root.iter() if x is not root][:10]
+    for n in nodes:
+        lt = local(n.tag)
+        if n is root:
+            want, got = "".join(alone(c) for c in n), conv(n)
+        elif lt in tabs["skip"]:
+            want = ""
+        elif lt == "t":
+            want = "".join(g(ch) for ch in (n.text or ""))
+        elif lt == "f":
+            want = "\\frac{" + slot(n, "num") + "}{" + slot(n, "den") + "}"
+        elif lt == "sSup":
+            want = slot(n, "e") + "^{" + slot(n, "sup") + "}"
+        elif lt == "sSub":
+            want = slot(n, "e") + "_{" + slot(n, "sub") + "}"
+        elif lt == "sSubSup":
+            want = slot(n, "e") + "_{" + slot(n, "sub") + "}^{" + slot(n, "sup") + "}"
+        elif lt == "rad":
+            d = slot(n, "deg").strip()
+            want = ("\\sqrt[" + d + "]{" if d else "\\sqrt{") + slot(n, "e") + "}"
+        elif lt == "nary":
+            c = own_chr(n, ns, "naryPr", "chr")
+            op = c.get(ns + "val", "∑") if c is not None else "∑"
+            sub, sup = slot(n, "sub"), slot(n, "sup")
+            want = (tabs["op_map"].get(op, "".join(g(ch) for ch in op)) + ("_{" + sub + "}" if sub.strip() else "")
+                    + ("^{" + sup + "}" if sup.strip() else "") + " " + slot(n, "e"))
+        elif lt == "d":
+            b, en = own_chr(n, ns, "dPr", "begChr"), own_chr(n, ns, "dPr", "endChr")
+            want = ((b.get(ns + "val", "(") if b is not None else "(")
+                    + ", ".join(alone(c) for c in n.findall(ns + "e"))
+                    + (en.get(ns + "val", ")") if en is not None else ")"))
+        elif lt == "m" and n.find(ns + "mr") is not None:
+            want = ("\\begin{matrix}" + " \\\\ ".join(" & ".join(alone(c) for c in r.findall(ns + "e"))
+                                                      for r in n.findall(ns + "mr")) + "\\end{matrix}")
+        elif lt == "func":
+            nm = slot(n, "fName")
+            want = tabs["func_map"].get(nm.strip(), nm) + "{" + slot(n, "e") + "}"
+        elif lt == "bar":
+            want = "\\overline{" + slot(n, "e") + "}"
+        elif lt == "acc":
+            c = own_chr(n, ns, "accPr", "chr")
+            a = c.get(ns + "val") if c is not None else "^"
+            want = tabs["accent_map"].get(a, "\\hat") + "{" + slot(n, "e") + "}"
+        else:
+            want = "".join(alone(c) for c in n)
+        if n is not root:
+            got = alone(n)
+        if got != want:
+            return f"<{'root' if n is root else lt}> renders as {got!r}, documented form with its operands in place is {want!r}"
+    return None
+
+
 def relabel(tree, lost):
     """replace every run-text character that is neither whitespace nor a bracket by a unique private-use code point
     (document order); whitespace and brackets stay, so the converter's control flow is unchanged"""
@@ -637,7 +743,7 @@ def check_tree(ctx, mod, tabs, tree, lost, kind):
     xml = to_xml(tree, root=True)
     e, out, exc = impl(mod, xml)
 
-    def report(key_prefix, what, pred):
+    def report(key_prefix, what, pred, extra=None):
         cat = key_prefix.split(":")[0]
         REPORTED[cat] = REPORTED.get(cat, 0) + 1
         if REPORTED[cat] > (1 if cat == "nondeterministic" else 2):  # two minimised inputs per kind of failure are enough; the rest is counted
@@ -647,6 +753,11 @@ def check_tree(ctx, mod, tabs, tree, lost, kind):
         small = tree if cat == "nondeterministic" else shrink(mod, tree, pred)
         sx = to_xml(small)
         _, o2, x2 = impl(mod, to_xml(small, root=True))
+        if extra is not None:
+            try:
+                what = f"{what} ({extra(small)})"
+            except Exception:  # noqa
+                pass
         ctx.finding(f"{key_prefix}:{sx}"[:300], f"{what}: omml_to_latex on {sx} -> {o2!r} {x2}",
                     {"xml": to_xml(small, root=True), "output": o2, "exception": x2, "original_xml": xml,
                      "replay": "ET.fromstring(xml) -> omml_to_latex"})
@@ -689,6 +800,20 @@ def check_tree(ctx, mod, tabs, tree, lost, kind):
                 report("text-multiplicity", "a run's text is not emitted exactly once in source order "
                        "(text characters replaced by unique markers)",
                        lambda v: multiplicity_broken(mod, tabs, lost, v) is not None)
+            if calm(e, lost):
+                ctx.count("form-oracle-applied")
+            try:
+                fb = form_broken(mod, tabs, lost, e)
+            except Exception:  # noqa  (exceptions are reported by the totality oracle)
+                fb = None
+            if fb:
+                def pf(v):
+                    try:
+                        return form_broken(mod, tabs, lost, ET.fromstring(to_xml(v, root=True))) is not None
+                    except Exception:  # noqa
+                        return False
+                report("form", "an element is not rendered in its documented form with every operand in place", pf,
+                       extra=lambda v: form_broken(mod, tabs, lost, ET.fromstring(to_xml(v, root=True))))
         if len(e) and expected_operator(e[0], tabs) is not None:
             def p(v):
                 ev, ov, xv = impl(mod, to_xml(v, root=True))
